@@ -406,6 +406,14 @@ func genProgram(r *vlib.Rand, id int) *program {
 	p.add("  ", "stop")
 	p.hole("after-stop-pattern-block", "  ", false, []string{"1"})
 	p.add("", "}")
+	if r.Chance(50) {
+		// a block whose condition is a comparison of literals (a constant): what
+		// is inside is checked like any other code, whether or not it can ever run
+		p.add("", vlib.Pick(r, []string{"0 == 1 {", "1 > 2 {", "2 < 1 {", "1 != 1 {", "3 >= 3 {"}))
+		p.hole("constant-condition-block", "  ", false, nil)
+		p.add("  ", c+"++")
+		p.add("", "}")
+	}
 	v := "v" + sfx
 	if useDeco {
 		p.add("", "@"+deco+" {")
